@@ -436,6 +436,26 @@ def check_bm_vsh(ctx, k):
                             "the function pointer through the function representation")
         ctx.only(paths, "ret")
         ctx.expect(paths, ret=1)
+    elif k == "k_bm_byval_vsh":
+        a = ctx.sym("a", 32)
+        h = ctx.sym("h", 64)
+        f = ctx.sym("f", 64)
+        qq = ctx.sym("q", 64)
+        ctx.assume(z3.Or(h == 0, ctx.in_region(h, b0, size)), z3.Or(qq == 0, ctx.in_region(qq, b0, size)))
+        fr = ctx.sym("frep", 32)
+        ctx.assume(f == fn(fr))
+        paths = ctx.run(k, [b0, a, h, f, qq])
+        rep = lambda v: z3.If(v == 0, BV(0, 64), zext(z3.Extract(31, 0, v - b0), 64))
+        bvx = lambda v: v if not isinstance(v, int) else BV(v, 64)
+        for q in paths:
+            if q.status == "ret":
+                l0 = [e for e in q.user["log"] if e[0] == 70]
+                l1 = [e for e in q.user["log"] if e[0] == 71]
+                ctx.require(q, z3.And(z3.BoolVal(len(l0) == 1 and len(l1) == 1), bvx(l0[0][1]) == zext(a, 64), bvx(l0[0][2]) == rep(h), bvx(l0[0][3]) == zext(fr, 64),
+                                      bvx(l1[0][1]) == rep(qq)) if l0 and l1 else z3.BoolVal(False),
+                            "passed by value, the guest receives every field in its guest encoding: data pointers as offsets, the function pointer as the function representation")
+        ctx.only(paths, "ret")
+        ctx.expect(paths, ret=1)
     else:
         a = ctx.sym("a", 32)
         h = ctx.sym("h", 64)
@@ -478,7 +498,7 @@ def jobs(tier, seed):
                     dict(name="%s %s by-value result" % (sbx, st.name), fn=check_load, kw=dict(st=st, form="byval_ret")),
                     dict(name="%s %s round trip" % (sbx, st.name), fn=check_roundtrip, kw=dict(st=st))]
             out.append(Job("C08_%s_%s" % (sbx, st.name), src, chks, compare_logs=True))
-    out.append(Job("C08_BM_vsh", '#include "C08_bm.inc"\n', [dict(name="BM struct with Fn*, Fn and int* fields: " + k, fn=check_bm_vsh, kw=dict(k=k)) for k in ("k_bm_load_vsh", "k_bm_store_vsh")], native=False))
+    out.append(Job("C08_BM_vsh", '#include "C08_bm.inc"\n', [dict(name="BM struct with Fn*, Fn and int* fields: " + k, fn=check_bm_vsh, kw=dict(k=k)) for k in ("k_bm_load_vsh", "k_bm_store_vsh", "k_bm_byval_vsh")], native=False))
     from specs import C07
     out.append(Job("C08_BM_nested", '#include "C07_bm2.inc"\n', [dict(name="BM nested struct " + k, fn=C07.check_bm2, kw=dict(k=k)) for k in ("k_bm_store_nested", "k_bm_load_nested")], native=False))
     return out
